@@ -190,10 +190,14 @@ func sigConv(raw json.RawMessage, line string) string {
 	return "conv/" + why + "/" + c.Shape
 }
 
+func init() {
+	goReplays["giant-C20"] = func(c *Ctx, raw json.RawMessage) { giantConvMonitor(c) }
+}
+
 var famConv = Register(&Family{Name: "conv", Spec: "Trace_MemViews", Cfg: "Trace_MemViews.cfg", Run: runConvCase, Sig: sigConv})
 
 func checkC20(c *Ctx) {
-	c.rule = "MC: all input shapes (whole string, substring of a larger string, empty) x conversion/append histories of 4 steps: no write lands in string memory when cap = len (and TLC finds the violation when the design keeps the backing array's capacity). TRACE: every shape (whole, substring, spare capacity, empty, nil) x lengths 0..5000 x append histories, and a grid of lengths (0..16 MiB, thorough 64 MiB, incl. 2^16 and 2^20 +-1) x spare capacities (0..1 MiB) of the backing array on the StringToBinary result; TLC checks len/cap/content/shared pointer and that appends never happen in place; strings converted from a caller's fixed-size scratch buffer are kept beyond the caller's frame and re-compared."
+	c.rule = "MC: all input shapes (whole string, substring of a larger string, empty) x conversion/append histories of 4 steps: no write lands in string memory when cap = len (and TLC finds the violation when the design keeps the backing array's capacity). TRACE: every shape (whole, substring, spare capacity, empty, nil) x lengths 0..5000 x append histories, and a grid of lengths (0..16 MiB, thorough 64 MiB, incl. 2^16 and 2^20 +-1) x spare capacities (0..1 MiB) of the backing array on the StringToBinary result; TLC checks len/cap/content/shared pointer and that appends never happen in place; strings converted from a caller's fixed-size scratch buffer are kept beyond the caller's frame and re-compared. GIANT (Go monitor): 2^31, 2^31+3, 2^32-1, 2^32, 2^32+5 bytes of a lazily mapped buffer converted in both directions (length, ends, shared memory)."
 	c.MC("MC_MemViews.tla", "MC_MemViews.cfg", 4)
 	var cases []json.RawMessage
 	rng := rand.New(rand.NewSource(c.Seed + 20))
@@ -236,7 +240,48 @@ func checkC20(c *Ctx) {
 		cases = append(cases, mustJSON(cs))
 	}
 	c.TraceCheck(famConv, cases)
+	giantConvMonitor(c)
 	c.Assume("pointer identity, len, cap and content are read with unsafe.SliceData/StringData in the harness; in-place modification of a StringToBinary result is caller misuse and not an action of the model")
+}
+
+// giantConvMonitor: lengths at and beyond 2^32 (Go monitor: TLC's integers are 32 bits wide).  The pages of the 4 GiB
+// buffer are mapped lazily and only its ends are touched.
+func giantConvMonitor(c *Ctx) {
+	var buf []byte
+	func() {
+		defer func() { recover() }()
+		buf = make([]byte, 1<<32+5)
+	}()
+	if buf == nil {
+		c.Assume("conversions of 4 GiB values skipped: the address space could not be reserved")
+		return
+	}
+	for _, n := range []int{1<<32 - 1, 1 << 32, 1<<32 + 5, 1<<31 + 3, 1 << 31} {
+		b := buf[:n:n]
+		b[0], b[n-1], b[n/2] = 0xA1, 0xB2, 0xC3
+		bad := guarded(func() string {
+			s := unsafex.BinaryToString(b)
+			if len(s) != n {
+				return fmt.Sprintf("BinaryToString of %d bytes has length %d", n, len(s))
+			}
+			if s[0] != 0xA1 || s[n-1] != 0xB2 || s[n/2] != 0xC3 || unsafe.StringData(s) != &b[0] {
+				return fmt.Sprintf("BinaryToString of %d bytes: content or memory differs", n)
+			}
+			r := unsafex.StringToBinary(s)
+			if len(r) != n || cap(r) != n {
+				return fmt.Sprintf("StringToBinary of a %d-byte string has len %d cap %d", n, len(r), cap(r))
+			}
+			if r[0] != 0xA1 || r[n-1] != 0xB2 || &r[0] != &b[0] {
+				return fmt.Sprintf("StringToBinary of a %d-byte string: content or memory differs", n)
+			}
+			return ""
+		})
+		b[0], b[n-1], b[n/2] = 0, 0, 0
+		c.AddEvals(1)
+		if bad != "" {
+			c.GoViolation("giant-C20", "conv/giant", map[string]int{"n": n}, bad)
+		}
+	}
 }
 
 // ---- C16 ------------------------------------------------------------------------
@@ -547,8 +592,90 @@ func sigIndep(raw json.RawMessage, line string) string {
 
 var famIndep = Register(&Family{Name: "indep", Spec: "Trace_MemViews", Cfg: "Trace_MemViews.cfg", Run: runIndepCase, Sig: sigIndep})
 
+// manyDistinctMonitor: a process that has decoded tens of thousands of DISTINCT short values (method names, strings) - so
+// that any bounded table of seen values is full - and then decodes values it has not seen: they are independent copies
+// like the first ones (Go monitor: the history is the point, not the individual value).
+func manyDistinctMonitor(c *Ctx) {
+	const prelude = 40000
+	bp := thrift.Binary
+	type api struct {
+		name string
+		dec  func(in []byte) (string, bool)
+		enc  func(v string) []byte
+	}
+	msg := func(v string) []byte { return bp.AppendFieldStop(bp.AppendMessageBegin(nil, v, thrift.CALL, 1)) }
+	str := func(v string) []byte { return bp.AppendString(nil, v) }
+	apis := []api{
+		{"Binary.ReadMessageBegin", func(in []byte) (string, bool) { n, _, _, _, err := bp.ReadMessageBegin(in); return n, err == nil }, msg},
+		{"BufferReader.ReadMessageBegin", func(in []byte) (string, bool) {
+			rd := bufiox.NewBytesReader(in)
+			br := thrift.NewBufferReader(rd)
+			n, _, _, err := br.ReadMessageBegin()
+			br.Recycle()
+			rd.Release(nil)
+			return n, err == nil
+		}, msg},
+		{"UnmarshalFastMsg", func(in []byte) (string, bool) {
+			n, _, err := thrift.UnmarshalFastMsg(in, thrift.NewApplicationException(0, ""))
+			return n, err == nil
+		}, msg},
+		{"Binary.ReadString", func(in []byte) (string, bool) { v, _, err := bp.ReadString(in); return v, err == nil }, str},
+		{"Binary.ReadBinary", func(in []byte) (string, bool) { v, _, err := bp.ReadBinary(in); return string(v), err == nil }, str},
+		{"BufferReader.ReadString", func(in []byte) (string, bool) {
+			rd := bufiox.NewBytesReader(in)
+			br := thrift.NewBufferReader(rd)
+			v, err := br.ReadString()
+			br.Recycle()
+			rd.Release(nil)
+			return v, err == nil
+		}, str},
+	}
+	for _, span := range []bool{false, true} {
+		thrift.SetSpanCache(span)
+		for _, a := range apis {
+			for i := 0; i < prelude; i++ {
+				a.dec(a.enc(fmt.Sprintf("method-%d-%v", i, span)))
+			}
+			bad := ""
+			for i := 0; i < 40 && bad == ""; i++ {
+				want := fmt.Sprintf("unseen-%s-%d-%v", a.name, i, span)
+				if i%4 == 3 {
+					want = want[:3+i%5] + strings.Repeat("z", i)
+				}
+				in := a.enc(want)
+				got, ok := a.dec(in)
+				if !ok || got != want {
+					bad = fmt.Sprintf("%q decoded as %q (ok=%v)", want, got, ok)
+					break
+				}
+				lo, hi := dataPtr(in), dataPtr(in)+uintptr(len(in))
+				if p := uintptr(unsafe.Pointer(unsafe.StringData(got))); len(got) > 1 && p >= lo && p < hi {
+					bad = fmt.Sprintf("the decoded value %q lives inside the input buffer", want)
+				}
+				for k := range in {
+					in[k] ^= 0x5A
+				}
+				if got != want {
+					bad = fmt.Sprintf("the decoded value %q changed when the input buffer was reused (after %d distinct values had been decoded)", want, prelude+i)
+				}
+			}
+			c.AddEvals(prelude + 40)
+			if bad != "" {
+				thrift.SetSpanCache(false)
+				c.GoViolation("distinct-C16", "indep/many-distinct/"+a.name, map[string]interface{}{"api": a.name, "span": span}, bad)
+				return
+			}
+		}
+	}
+	thrift.SetSpanCache(false)
+}
+
+func init() {
+	goReplays["distinct-C16"] = func(c *Ctx, raw json.RawMessage) { manyDistinctMonitor(c) }
+}
+
 func checkC16(c *Ctx) {
-	c.rule = "MC: span allocator regions are pairwise disjoint, in bounds and have cap = len over request runs that wrap the span (scaled span size), private allocation beyond the span size. TRACE: decode runs of strings/binaries with lengths from every span class (0, <128, 128..128KiB, larger) incl. long runs that wrap the 1 MiB span, buffer and stream readers (over an io.Reader source and over the input slice itself), both SetSpanCache settings; every result's memory region [addr, addr+cap) must be disjoint from the input and from every other result, results must be unchanged after the input is overwritten, after the stream reader is released with unread bytes and the pool's buffers are refilled by another user, after the recycled reader object decoded other data, and after every other result is appended to and modified, and values must be identical with the span cache on and off."
+	c.rule = "MC: span allocator regions are pairwise disjoint, in bounds and have cap = len over request runs that wrap the span (scaled span size), private allocation beyond the span size. TRACE: decode runs of strings/binaries with lengths from every span class (0, <128, 128..128KiB, larger) incl. long runs that wrap the 1 MiB span, buffer and stream readers (over an io.Reader source and over the input slice itself), both SetSpanCache settings; every result's memory region [addr, addr+cap) must be disjoint from the input and from every other result, results must be unchanged after the input is overwritten, after the stream reader is released with unread bytes and the pool's buffers are refilled by another user, after the recycled reader object decoded other data, and after every other result is appended to and modified, and values must be identical with the span cache on and off. MANY DISTINCT VALUES (Go monitor): 40000 distinct short values through every name / string returning API (ReadMessageBegin of both readers, UnmarshalFastMsg, ReadString, ReadBinary; span cache off and on), then unseen values must still be independent copies."
 	c.MC("MC_MemViews.tla", "MC_MemViews.cfg", 4)
 	var cases []json.RawMessage
 	rng := rand.New(rand.NewSource(c.Seed + 16))
@@ -593,6 +720,7 @@ func checkC16(c *Ctx) {
 		}
 	}
 	c.TraceCheck(famIndep, cases)
+	manyDistinctMonitor(c)
 	c.Assume("result regions are projected as (cluster, offset, len, cap) from real addresses; strings count with cap = len")
 }
 
